@@ -4,6 +4,7 @@ import PharmpyModel.C02.Advan
 import PharmpyModel.C02.PkConv
 import PharmpyModel.C02.Record
 import PharmpyModel.C02.Dose
+import PharmpyModel.C02.ModelRecord
 open Pharmpy Pharmpy.C02
 
 def bad : Sexp := .list [.atom "err", .atom "bad-op"]
@@ -92,6 +93,16 @@ def pkS (pk : Pk) : Sexp := .list (pk.map (fun p => .list [.atom p.1, .atom p.2]
 
 def handle (req : Sexp) : Sexp :=
   match req with
+  | .list [.atom "modelrec", .atom advan, solver, names, map, mrec] =>
+    match solver.asBool?, symList? names, namedMap? map with
+    | some sv, some ns, some mp =>
+      let old : Option (List String) := match mrec with
+        | .atom "none" => none
+        | x => symList? x
+      let r := updateModelRecord advan sv ns ⟨mp, old⟩
+      .list [.list (r.map.map (fun p => .list [.atom p.1, Sexp.ofNat p.2])),
+             (match r.modelRec with | some l => Sexp.ofStrs l | none => .atom "none")]
+    | _, _, _ => bad
   | .list [.atom "updatebio", n, bio, pk] =>
     match n.asNat?, attr? bio, pk? pk with
     | some n, some bio, some pk =>
